@@ -180,7 +180,8 @@ def _hist(ctx, mode, img, rule, n_quick, n_thorough, as_propfail=False, extra_ar
                 n = n_quick * 6
             tmo = 900 if ctx.tier == "quick" else (ctx.budget_s or 3000)
             runs = run_sharded(ctx, "c04", shards, lambda i: ["-seed", str(ctx.seed * 1000 + i), "-n", str(n // shards), "-img", img,
-                                                             "-dir", "{dir}"] + list(extra_args) + (["-txs", "40", "-ops", "40"] if ctx.tier == "thorough" and i % 4 == 0 else []),
+                                                             "-dir", "{dir}"] + list(extra_args) + (["-bigfree"] if (i == shards - 1 and img != "none") else [])
+                               + (["-txs", "40", "-ops", "40"] if ctx.tier == "thorough" and i % 4 == 0 else []),
                                tmo, oracle_mode=mode)
         for r in runs:
             absorb(res, ctx.pid, *r)
